@@ -96,6 +96,9 @@ func newDescriber(e *Engine, fn *ssa.Function, bind []*Node) *describer {
 				if n.K != "call" {
 					continue
 				}
+				if _, isBuiltin := c.Call.Value.(*ssa.Builtin); isBuiltin {
+					continue // len, cap, append, copy …: no per-site identity
+				}
 				base := n.String()
 				seen[base]++
 				if seen[base] > 1 {
